@@ -1,1 +1,6 @@
 import CGV.Props.C07
+#print axioms CGV.C07.C07_symbols_inverse
+#print axioms CGV.C07.C07_single_bond_silent
+#print axioms CGV.C07.C07_marker_fresh
+#print axioms CGV.C07.C07_write_single
+#print axioms CGV.C07.lowestFree_spec
